@@ -344,20 +344,29 @@ def scalars(chk, ex):
                     report_scalar(chk, m, ty, s, f'deserialize_{ty} delivered {v}')
 
 
+SCALAR_SLOT = {'u8': ('/p', 0, 'a'), 'i8': ('/p', 1, 'b'), 'u32': ('/p', 2, 'c'),
+               'u16': ('/p2', 0, 'd'), 'u64': ('/p2', 1, 'e'), 'i16': ('/p2', 2, 'f'), 'i32': ('/p2', 3, 'g'), 'i64': ('/p2', 4, 'h')}
+
+
+def scalar_case(ty, text):
+    """a request to the native typed API whose path carries `text` in the segment declared as `ty`"""
+    base, idx, key = SCALAR_SLOT[ty]
+    segs = ['1'] * (3 if base == '/p' else 5)
+    segs[idx] = text
+    return {'op': 'typed_request', 'method': 'GET', 'target': base + '/' + '/'.join(segs)}, key
+
+
 def report_scalar(chk, m, ty, s, what):
     if m is None: return
-    if ty not in ('u8', 'i8', 'u32'):
+    if ty not in SCALAR_SLOT:
         chk.mismatches.append(f'model not replayable (no native endpoint with a {ty} path field): {what}'); return
     ev = lambda t: m.eval(t, model_completion=True)
     text = str(ev(s.val).as_long()) if bool(ev(s.numeric)) else 'x1'
-    seg = {'u8': ['1', '1', '1'], 'i8': None, 'u32': None}
-    vals = {'u8': '1', 'i8': '1', 'u32': '1'}; vals[ty] = text
-    case = {'op': 'typed_request', 'method': 'GET', 'target': f'/p/{vals["u8"]}/{vals["i8"]}/{vals["u32"]}'}
+    case, key = scalar_case(ty, text)
     nat = replay([case])[0]
     lo, hi = INT_RANGE[ty]
     ok_want = bool(ev(s.numeric)) and lo <= ev(s.val).as_long() <= hi
-    key = {'u8': 'a', 'i8': 'b', 'u32': 'c'}[ty]
-    bad = (nat.get('status') == 200) != ok_want or (ok_want and nat.get('body', {}).get(key) != ev(s.val).as_long()) or (not ok_want and nat.get('entered', 0) != 0)
+    bad = (nat.get('status') == 200) != ok_want or (ok_want and (nat.get('body') or {}).get(key) != ev(s.val).as_long()) or (not ok_want and nat.get('entered', 0) != 0)
     chk.counterexample(f'{what}: path segment {text!r} as {ty} -> native {nat}', case, bad, role=f'scalar:{ty}')
 
 
